@@ -234,26 +234,79 @@ func alignNames(fi *FuncInfo, con *Contract) []int {
 		out[k] = -1
 	}
 	cur := make([]string, len(fi.DeclOrder))
+	curT := make([]string, len(fi.DeclOrder))
 	for k, v := range fi.DeclOrder {
 		cur[k] = v.Name()
+		curT[k] = typeKey(v.Type())
+	}
+	recT := func(k int) string {
+		if k < len(con.NamesType) {
+			return con.NamesType[k]
+		}
+		return ""
+	}
+	recTag := func(k int) string {
+		if k < len(con.NamesTag) {
+			return con.NamesTag[k]
+		}
+		return ""
+	}
+	sameT := func(r, c int) bool { return recT(r) == "" || recT(r) == curT[c] }
+	usedR := make([]bool, len(con.Names))
+	usedC := make([]bool, len(cur))
+	// 1. variables declared by loops keep their role (loop ordinal + init / key / value), whatever else changed
+	for r := range con.Names {
+		t := recTag(r)
+		if t == "" {
+			continue
+		}
+		for c, v := range fi.DeclOrder {
+			if !usedC[c] && fi.DeclTag[v] == t {
+				out[r] = c
+				usedR[r], usedC[c] = true, true
+				break
+			}
+		}
+		if !usedR[r] {
+			usedR[r] = true // its loop no longer declares such a variable (for instance a keyless range): resolved at lookup
+		}
 	}
 	group := func(r0, r1, c0, c1 int) {
-		rec, now := con.Names[r0:r1], cur[c0:c1]
-		if len(rec) == len(now) {
-			for k := range rec {
-				out[r0+k] = c0 + k
+		var rs, cs []int
+		for r := r0; r < r1; r++ {
+			if !usedR[r] {
+				rs = append(rs, r)
 			}
-			return
 		}
-		// LCS table
-		n, m := len(rec), len(now)
+		for c := c0; c < c1; c++ {
+			if !usedC[c] {
+				cs = append(cs, c)
+			}
+		}
+		if len(rs) == len(cs) {
+			ok := true
+			for k := range rs {
+				if !sameT(rs[k], cs[k]) {
+					ok = false
+				}
+			}
+			if ok {
+				for k := range rs {
+					out[rs[k]] = cs[k]
+				}
+				return
+			}
+		}
+		// anchors: longest common subsequence on (name, type)
+		n, m := len(rs), len(cs)
+		eq := func(a, b int) bool { return con.Names[rs[a]] == cur[cs[b]] && sameT(rs[a], cs[b]) }
 		L := make([][]int, n+1)
 		for a := range L {
 			L[a] = make([]int, m+1)
 		}
 		for a := n - 1; a >= 0; a-- {
 			for b := m - 1; b >= 0; b-- {
-				if rec[a] == now[b] {
+				if eq(a, b) {
 					L[a][b] = L[a+1][b+1] + 1
 				} else if L[a+1][b] >= L[a][b+1] {
 					L[a][b] = L[a+1][b]
@@ -265,17 +318,24 @@ func alignNames(fi *FuncInfo, con *Contract) []int {
 		a, b := 0, 0
 		ga, gb := 0, 0 // start of the current gap
 		flush := func(ea, eb int) {
-			// a stretch between two anchors: paired in order from its start.  With equal lengths this is a renaming in
-			// place; with different lengths (a variable added or removed in the stretch) it is a guess, and a wrong
-			// guess can only make an obligation fail - every obligation is still proved under the resolved names
-			for k := 0; k < ea-ga && k < eb-gb; k++ {
-				out[r0+ga+k] = c0 + gb + k
+			// a stretch between two anchors: paired in order, an entry only with a variable of its recorded type.  A
+			// wrong guess can only make an obligation fail - every obligation is still proved under the resolved names
+			y := gb
+			for x := ga; x < ea; x++ {
+				for y < eb && !sameT(rs[x], cs[y]) {
+					y++
+				}
+				if y >= eb {
+					break
+				}
+				out[rs[x]] = cs[y]
+				y++
 			}
 		}
 		for a < n && b < m {
-			if rec[a] == now[b] {
+			if eq(a, b) {
 				flush(a, b)
-				out[r0+a] = c0 + b
+				out[rs[a]] = cs[b]
 				a++
 				b++
 				ga, gb = a, b
